@@ -289,7 +289,7 @@ class TopicEngine(Engine):
         self.fixes = fixes or MODEL_FIXES
 
     def n_cases(self, tier):
-        return 3000 if tier == "quick" else 60000
+        return 1500 if tier == "quick" else 60000
 
     def corpus(self):
         f = self.fixes
